@@ -5,6 +5,7 @@ import KoordVerif.Proofs.C05ExtPipe
 import KoordVerif.Proofs.C05ExtProf
 import KoordVerif.Proofs.C05ExtProf2
 import KoordVerif.Proofs.C05ExtUnr
+import KoordVerif.Proofs.C05ExtSel
 /-
 C05 — reservations are never over-allocated and only serve their owners.
 
@@ -216,6 +217,54 @@ theorem no_owner_matches_nothing (perr : Bool) (ms : List OwnerEval) (h : ms = [
     matchOwners perr ms = false := by
   rcases h with h | h <;> simp [matchOwners, matchOwnersList, h]
 
+/-! ### 4b. the owner label selector is read in full (round 6; model of util.GetFastLabelSelector +
+    ParseReservationOwnerMatchers + labels.Selector.Matches in Model/C05Sel.lean) -/
+
+/-- whatever matcher the owner parse builds from a label selector accepts a pod iff the pod carries ALL of matchLabels
+    AND satisfies ALL of matchExpressions (the fast path is only taken when there is no expression to lose) -/
+theorem owner_selector_read_in_full (s : LabelSel) (p : ParsedSel) (pod : Labels) (h : getFastLabelSelector s = some p) :
+    p.matchesPod pod = true ↔ selectorSatisfied s pod := fast_selector_exact s p pod h
+
+/-- an invalid expression (unknown operator, In / NotIn without values, Exists / DoesNotExist with values) is a parse
+    error, with or without matchLabels next to it; one such entry makes the whole owner spec unparsable -/
+theorem owner_selector_invalid_is_parse_error (ss : List (Option LabelSel)) (s : LabelSel) (e : SelExpr)
+    (hs : some s ∈ ss) (he : e ∈ s.exprs) (hv : exprValid e = false) :
+    getFastLabelSelector s = none ∧ parseOwnerSelectors ss = none :=
+  ⟨fast_selector_rejects_invalid s e he hv, parse_owner_selectors_rejects_invalid ss s e hs he hv⟩
+
+/-- matched and not ignored, with the label selectors evaluated by the MODEL (not handed in as booleans): every
+    selector of the spec is valid and one owner entry is satisfied - object reference, controller reference, and its
+    label selector in full -/
+theorem matched_owner_selector_satisfied (x : MatchCtx) (es : List OwnerEntry) (pod : Labels)
+    (h : checkMatched x (matchOwnersSpec es pod) = true) (hi : x.ignored = false) :
+    (∀ e ∈ es, ∀ s, e.sel = some s → ∀ q ∈ s.exprs, exprValid q = true) ∧
+    ∃ e ∈ es, e.obj = true ∧ e.ctrl = true ∧ ∀ s, e.sel = some s → selectorSatisfied s pod := by
+  apply match_owners_spec_sound
+  cases hmo : matchOwnersSpec es pod with
+  | true => rfl
+  | false => simp [checkMatched, hi, hmo] at h
+
+/-- owner `app=1, tier NotIn [4]`; pods app=1,tier=4 (canary) and app=1,tier=5 (stable) -/
+def selEx : LabelSel := { labels := [(1, 1)], exprs := [{ key := 2, op := 1, vals := [4] }] }
+def selExBad : LabelSel := { labels := [(1, 1)], exprs := [{ key := 2, op := 9, vals := [4] }] }
+def podCanary : Labels := [(1, 1), (2, 4)]
+def podStable : Labels := [(1, 1), (2, 5)]
+
+/-- seeded round-5 change (fast path whenever matchLabels is non-empty): the canary pod is accepted by an owner that
+    excludes canaries, and the invalid operator next to matchLabels parses; the code as written rejects both -/
+theorem labels_only_guard_drops_expressions_counterexample :
+    (getFastLabelSelectorLabelsOnlyGuard selEx).map (fun p => p.matchesPod podCanary) = some true ∧
+    ¬ selectorSatisfied selEx podCanary ∧
+    (getFastLabelSelectorLabelsOnlyGuard selExBad).isSome = true ∧
+    matchOwnersSpec [{ obj := true, ctrl := true, sel := some selEx }] podCanary = false ∧
+    matchOwnersSpec [{ obj := true, ctrl := true, sel := some selEx }] podStable = true ∧
+    matchOwnersSpec [{ obj := true, ctrl := true, sel := none }, { obj := true, ctrl := true, sel := some selExBad }] podStable = false := by
+  refine ⟨by decide, ?_, by decide, by decide, by decide, by decide⟩
+  unfold selectorSatisfied
+  decide
+
+example : selectorSatisfied selEx podStable := by unfold selectorSatisfied; decide
+
 /-- a name-pinned or affinity-selected pod is matched only if the exact-match spec holds too -/
 theorem match_implies_exact (x : MatchCtx) (ok : Bool) (h : checkMatched x ok = true) (hi : x.ignored = false) :
     ok = true ∧ x.exact = true := by
@@ -400,6 +449,7 @@ def exCtx : MatchCtx :=
     tolerateUnsch := false, taintBad := false, affinity := true }
 example : checkMatched exCtx (matchOwners false [{ obj := true, ctrl := true, lbl := true }]) = true := by decide
 example : checkMatched exCtx (matchOwners false [{ obj := true, ctrl := false, lbl := true }]) = false := by decide
+example : checkMatched exCtx (matchOwnersSpec [{ obj := true, ctrl := true, sel := some selEx }] podStable) = true := by decide
 
 /-! ## 7. several scheduler profiles (one reservation cache per profile, one informer) -/
 
